@@ -475,14 +475,36 @@ func (c *Ctx) c09Bombs() {
 	for _, size := range []int{1 << 10, 1 << 20, limit - 100000, limit, limit + 1, limit + 100000, 100 << 20} {
 		pad := bytes.Repeat([]byte("A"), size)
 		payload := base64.StdEncoding.EncodeToString(deflate(append([]byte("<x>"), append(pad, []byte("</x>")...)...)))
-		for _, entry := range []string{"NewIdpAuthnRequest", "ValidateLogoutResponseRedirect"} {
+		for _, entry := range []string{"NewIdpAuthnRequest", "ValidateLogoutResponseRedirect", "NewIdpAuthnRequest/POST", "ValidateLogoutResponseForm"} {
 			var m0, m1 runtime.MemStats
+			held := 0
 			runtime.GC()
 			runtime.ReadMemStats(&m0)
 			res := withTimeout(func() string {
 				if entry == "NewIdpAuthnRequest" {
 					r, _ := http.NewRequest("GET", idpSSOURL+"?"+url.Values{"SAMLRequest": {payload}}.Encode(), nil)
 					if _, err := saml.NewIdpAuthnRequest(idp, r); err != nil {
+						return "err"
+					}
+					return "ok"
+				}
+				if entry == "NewIdpAuthnRequest/POST" {
+					// the POST binding carries the message base64-encoded, not deflated: a deflated payload is not a message, and
+					// whatever the IdP makes of it, it must not end up holding more than the limit
+					r, _ := http.NewRequest("POST", idpSSOURL, strings.NewReader(url.Values{"SAMLRequest": {payload}}.Encode()))
+					r.Header.Set("Content-Type", "application/x-www-form-urlencoded")
+					req, err := saml.NewIdpAuthnRequest(idp, r)
+					if err != nil {
+						return "err"
+					}
+					held = len(req.RequestBuffer)
+					if req.Validate() != nil {
+						return "err"
+					}
+					return "ok"
+				}
+				if entry == "ValidateLogoutResponseForm" {
+					if err := s.ValidateLogoutResponseForm(payload); err != nil {
 						return "err"
 					}
 					return "ok"
@@ -503,6 +525,9 @@ func (c *Ctx) c09Bombs() {
 			}
 			if grown > 400 {
 				orc = fmt.Sprintf("key=inflate-alloc:%s %d MB allocated while handling a %d-byte (inflated) input", entry, grown, size)
+			}
+			if held > limit {
+				orc = fmt.Sprintf("key=inflate-bound:%s the request buffer holds %d bytes (> 10 MB) inflated from a %d-byte payload", entry, held, len(payload))
 			}
 			c.count("c09-bomb", fmt.Sprintf("%s/%dMB/%s", entry, size>>20, res))
 			c.emitOneWay("bomb", []string{encStr(entry), fmt.Sprint(size)}, res, orc)
